@@ -107,6 +107,8 @@ pub enum HCmd {
     DropStream(u64),
     /// mark a held stream ignore_for_keep_alive
     IgnoreStream(u64),
+    /// close the write half of a held stream and keep holding it (request sent, response awaited)
+    HalfClose(u64),
     Emit(ProbeOut),
     /// flip the keep-alive flag from inside `poll` (like a real handler would)
     SetKeepAlive(bool),
@@ -129,6 +131,9 @@ pub struct HandlerShared {
     pub outstanding_opens: HashSet<u64>,
     /// tags of held streams marked ignore_for_keep_alive
     pub ignored: HashSet<u64>,
+    /// held streams whose write half is being closed (kept in `streams` all along)
+    pub half_closing: Vec<u64>,
+    pub half_closed: Vec<u64>,
     /// graceful-close script: `poll_close` first returns Pending (waking itself) this many times ...
     pub close_pending_left: u32,
     /// ... then emits this many final events (seq = close_seq_base + k), then `Ready(None)`
@@ -227,6 +232,11 @@ impl ConnectionHandler for ProbeHandler {
                         h.ignored.insert(t);
                     }
                 }
+                HCmd::HalfClose(t) => {
+                    if h.streams.contains_key(&t) && !h.half_closing.contains(&t) {
+                        h.half_closing.push(t);
+                    }
+                }
                 HCmd::SetKeepAlive(k) => h.keep_alive = k,
                 HCmd::SetProtocols(p) => h.protocols = p,
                 HCmd::Emit(o) => return Poll::Ready(ConnectionHandlerEvent::NotifyBehaviour(o)),
@@ -238,6 +248,19 @@ impl ConnectionHandler for ProbeHandler {
                         ProtocolSupport::Removed(set)
                     }));
                 }
+            }
+        }
+        // drive pending half-closes (the stream stays in `streams`)
+        let pending: Vec<u64> = std::mem::take(&mut h.half_closing);
+        for t in pending {
+            let done = match h.streams.get_mut(&t) {
+                Some(st) => futures::AsyncWrite::poll_close(std::pin::Pin::new(st), cx).is_ready(),
+                None => true,
+            };
+            if done {
+                h.half_closed.push(t);
+            } else {
+                h.half_closing.push(t);
             }
         }
         h.waker = Some(cx.waker().clone());
@@ -428,6 +451,8 @@ impl Probe {
             dropped: false,
             outstanding_opens: HashSet::new(),
             ignored: HashSet::new(),
+            half_closing: vec![],
+            half_closed: vec![],
             close_pending_left: s.default_close_plan.0,
             close_events_left: s.default_close_plan.1,
             close_seq_base: 1_000_000_000 + (s.handlers.len() as u64) * 64 + (s.tag as u64) * 100_000_000,
